@@ -22,12 +22,14 @@ import (
 	"github.com/prometheus/client_golang/prometheus"
 	"github.com/prometheus/common/model"
 	"github.com/prometheus/common/promslog"
+	"google.golang.org/protobuf/types/known/timestamppb"
 
 	"github.com/prometheus/alertmanager/alert"
 	apiv2 "github.com/prometheus/alertmanager/api/v2"
 	apimodels "github.com/prometheus/alertmanager/api/v2/models"
 	"github.com/prometheus/alertmanager/config"
 	"github.com/prometheus/alertmanager/dispatch"
+	"github.com/prometheus/alertmanager/silence/silencepb"
 	"github.com/prometheus/alertmanager/timeinterval"
 
 	"verifharness/sim"
@@ -129,6 +131,19 @@ func genSysCase(r *vh.Rand) Case {
 			for _, p := range parts[2:] {
 				sb.WriteString("- name: " + p)
 			}
+		}
+		if r.Chance(1, 2) {
+			// a silence over all alerts of the group(s), placed at random relative to the interval edge in the middle
+			// of the run: created before the edge and alive after it, created after it, expiring before/after it
+			n := len(in.events())
+			sil := SilIn{OnlyA: in.D > 0 && r.Chance(1, 3), From: r.Intn(n/2 + 1), To: -1}
+			if r.Chance(1, 3) {
+				sil.From = r.Range(n/2, n-1)
+			}
+			if r.Chance(1, 3) {
+				sil.To = r.Range(sil.From+1, n)
+			}
+			in.Sil = &sil
 		}
 		return Case{Kind: "sys", YAML: sb.String(), Sys: &in}
 	}
@@ -272,6 +287,15 @@ type SysIn struct {
 	GI    int64 `json:"group_interval_s"`
 	K     int   `json:"flushes"`           // flushes observed per group
 	D     int64 `json:"second_group_delay_s"` // > 0: a second alert (second group of the same route) is submitted D s later
+	Sil   *SilIn `json:"silence,omitempty"`
+}
+
+// SilIn: one silence covering EVERY alert of the group(s) of the route, created right after the (From-1)-th
+// observed flush (From = 0: together with the first alert) and expired right after the (To-1)-th (To < 0: never).
+type SilIn struct {
+	OnlyA bool `json:"only_group_a,omitempty"` // matcher alertname="A" instead of team="x"
+	From  int  `json:"from_event"`
+	To    int  `json:"to_event"`
 }
 
 type sysEvent struct {
@@ -316,6 +340,7 @@ type flushObs struct {
 	by        []string
 	isMuted   bool
 	haveGroup bool
+	silenced  bool // every alert of the flush was covered by an active silence
 	// GET /api/v2/alerts/groups after this flush
 	api        []apiGroup // every group of receiver "team" the API lists (default query), by group id
 	apiUnmuted []int      // group ids listed for ?muted=false
@@ -418,7 +443,27 @@ func (rn *runner) sys(c *Case) {
 		put(0)
 		putB := in.groups() == 2
 		seen := 0
-		for _, ev := range evs {
+		silID := ""
+		for evIdx, ev := range evs {
+			if in.Sil != nil && in.Sil.From == evIdx {
+				sil := &silencepb.Silence{Comment: "c", CreatedBy: "h"}
+				mt := &silencepb.Matcher{Type: silencepb.Matcher_EQUAL, Name: "team", Pattern: "x"}
+				if in.Sil.OnlyA {
+					mt = &silencepb.Matcher{Type: silencepb.Matcher_EQUAL, Name: "alertname", Pattern: "A"}
+				}
+				sil.MatcherSets = []*silencepb.MatcherSet{{Matchers: []*silencepb.Matcher{mt}}}
+				sil.StartsAt = timestamppb.New(time.Now())
+				sil.EndsAt = timestamppb.New(time.Now().Add(1000 * time.Hour))
+				if err := s.Silences.Set(context.Background(), sil); err != nil {
+					t.Fatalf("silence Set: %v", err)
+				}
+				silID = sil.Id
+			}
+			if in.Sil != nil && in.Sil.To == evIdx && silID != "" {
+				if err := s.Silences.Expire(context.Background(), silID); err != nil {
+					t.Fatalf("silence Expire: %v", err)
+				}
+			}
 			if putB && in.Start+in.D <= ev.at {
 				sleepUntil(in.Start + in.D)
 				put(1)
@@ -438,7 +483,10 @@ func (rn *runner) sys(c *Case) {
 					if fo != nil {
 						fail = "two flushes within one observation step"
 					}
-					fo = &flushObs{gid: gid, now: time.Unix(0, rc.Tau)}
+					fo = &flushObs{gid: gid, now: time.Unix(0, rc.Tau), silenced: len(rc.Suppressed) > 0}
+					for _, sup := range rc.Suppressed { // the instance's own silence/inhibition verdict per alert of the flush
+						fo.silenced = fo.silenced && sup
+					}
 				case rc.Kind == "notify" && rc.Recv == "team" && fo != nil && gid == fo.gid:
 					fo.notified = true
 				}
@@ -505,6 +553,7 @@ func (rn *runner) sys(c *Case) {
 	}
 	var flushes []string
 	nPass, nBlock := 0, 0
+	prevWant := map[int][]string{}
 	lastWant := map[int][]string{} // per group: the names its last flush should have left in the marker
 	opposite := false
 	for i, f := range obs {
@@ -512,7 +561,7 @@ func (rn *runner) sys(c *Case) {
 			rn.run.Violate("group-missing-from-api", "the alert's group is not listed by dispatcher.Groups", c)
 		}
 		flushes = append(flushes, vh.App("mkFlush", vh.Nat(f.gid), vh.Z(f.now.Unix()), coqTzTableTI(conf.tis, f.now.Unix()),
-			vh.Bool(f.notified), vh.ListOf(f.by, vh.Str), vh.Bool(f.isMuted),
+			vh.Bool(f.silenced), vh.Bool(f.notified), vh.ListOf(f.by, vh.Str), vh.Bool(f.isMuted),
 			vh.ListOf(f.api, func(g apiGroup) string { return vh.Pair(vh.Nat(g.gid), vh.ListOf(g.by, vh.Str)) }),
 			vh.ListOf(f.apiUnmuted, vh.Nat)))
 		if f.notified {
@@ -571,10 +620,20 @@ func (rn *runner) sys(c *Case) {
 			rn.run.Count("sys_flushes", "api: groups of the one route in opposite muted states")
 			opposite = true
 		}
-		if f.notified != (!blockedActive && !blockedMute) {
+		if f.silenced {
+			rn.run.Count("sys_flushes", fmt.Sprintf("fully-silenced flush, muted-by-interval:%v", blockedActive || blockedMute))
+			if prev, ok := prevWant[f.gid]; ok && fmt.Sprint(prev) != fmt.Sprint(wantBy) {
+				rn.run.Count("sys_flushes", "fully-silenced flush at which the muted state of the group changes")
+			}
+		}
+		prevWant[f.gid] = wantBy
+		if f.notified != (!blockedActive && !blockedMute && !f.silenced) {
 			key := "gating-notified-while-muted"
 			if !blockedActive && !blockedMute {
 				key = "gating-dropped-while-not-muted"
+			}
+			if f.silenced && f.notified {
+				key = "notified-while-silenced"
 			}
 			rn.run.Violate(key, fmt.Sprintf("sys flush %d (group %d) at %s: notified=%v; mute intervals containing it=%v; active=%v containing=%v", i, f.gid, f.now.UTC(), f.notified, mutedBy, conf.active, activeBy), c)
 			continue
